@@ -382,6 +382,67 @@ def rule_r5(F, rep):
     rep.trust("TOML 1.0 bare-key grammar; YAML 1.2 plain-scalar indicator characters (subset check only)")
 
 
+# --------------------------------------------------------------------------------------------------
+# R7: a plain (unquoted) YAML key is read back as a string
+
+# YAML 1.2.2 section 10.3.2 (core schema) tag resolution: plain scalars matching these are NOT strings
+YAML_CORE_NONSTR = [
+    ("null", "null|Null|NULL|~|"),
+    ("bool", "true|True|TRUE|false|False|FALSE"),
+    ("int-decimal", "[-+]?[0-9]+"),
+    ("int-octal", "0o[0-7]+"),
+    ("int-hex", "0x[0-9a-fA-F]+"),
+    ("float", "[-+]?(\\.[0-9]+|[0-9]+(\\.[0-9]*)?)([eE][-+]?[0-9]+)?"),
+    ("float-inf", "[-+]?\\.(inf|Inf|INF)"),
+    ("float-nan", "\\.(nan|NaN|NAN)"),
+]
+
+
+def rule_r7(F, rep):
+    from . import strpred
+    from .dfa import regex, DFA
+    R = rep.rule("C05.R7", "no string that is_safe_yaml_plain accepts is resolved by the YAML 1.2 core schema to anything but a "
+                 "string: the language of the predicate (built from its MIR: every `chars().all/any/filter().count()`, "
+                 "`starts_with`, `==` and literal-list test is a regular condition) has an empty intersection with each "
+                 "non-string pattern of YAML 1.2.2 section 10.3.2, contains no empty key and no character outside [0-9A-Za-z/_.-]")
+    fn = F.fn(M + "is_safe_yaml_plain")
+    rep.fn(fn)
+    ex = strpred.Extract(F, rep, fn, lambda clo: closure_bool_table(F, rep, clo, "char"))
+    acc = ex.run()
+    al = ex.al
+    rep.states += acc.n
+    for name, rx in YAML_CORE_NONSTR:
+        inter = acc & regex(al, rx)
+        w = inter.shortest()
+        ok = w is None
+        rep.ob(R, "yaml-plain|%s" % name, ok, {"pattern": rx, "atoms": ex.atoms} if name == "float" else None)
+        if not ok:
+            rep.violation(R, "%s|plain-resolves-as|%s" % (fn.q, name),
+                          "is_safe_yaml_plain accepts %r, which a YAML 1.2 loader resolves as %s, not as a string: an object "
+                          "with that field name is written with a bare key and does not decode to the value it came from"
+                          % (inter.show(w), name), fn.loc, {"witness": inter.show(w), "pattern": rx})
+    safe = al.syms_of(lambda cp: cp in YAML_SAFE)
+    outside = acc & DFA.every_char_in(al, safe).complement()
+    w = outside.shortest()
+    rep.ob(R, "yaml-plain|alphabet", w is None)
+    if w is not None:
+        rep.violation(R, "%s|plain-alphabet" % fn.q, "is_safe_yaml_plain accepts %r, which contains a character outside "
+                      "[0-9A-Za-z/_.-]" % outside.show(w), fn.loc)
+    emp = acc & DFA.literal(al, "")
+    rep.ob(R, "yaml-plain|non-empty", emp.is_empty())
+    if not emp.is_empty():
+        rep.violation(R, "%s|plain-empty" % fn.q, "is_safe_yaml_plain accepts the empty key", fn.loc)
+    # document markers / block-sequence indicator at the start of a line
+    for lit in ("-", "---"):
+        x = acc & DFA.literal(al, lit)
+        rep.ob(R, "yaml-plain|indicator|%s" % lit, x.is_empty())
+        if not x.is_empty():
+            rep.violation(R, "%s|plain-indicator|%s" % (fn.q, lit), "is_safe_yaml_plain accepts %r (a YAML indicator at the "
+                          "start of a line)" % lit, fn.loc)
+    rep.floor(R, len(ex.atoms), 15, "string atoms of is_safe_yaml_plain")
+    rep.trust("YAML 1.2.2 section 10.3.2 core-schema tag resolution patterns (transcribed)")
+
+
 MANIFESTERS = ["do_manifest_json", "do_manifest_python", "do_manifest_yaml_doc", "do_manifest_toml_value"]
 SIB_EXCEPT = {("do_manifest_toml_value", "Null"): "TOML has no null: manifesting null is an error by specification"}
 
@@ -464,6 +525,7 @@ def run(F, rep, tier):
     from . import c05_flow
     c05_flow.run(F, rep)
     rule_r6(F, rep)
+    rule_r7(F, rep)
     from . import c06
     c06.rule_r3(F, rep)      # numbers reach the document only through Display of the f64 itself
     rep.assume("round-trip equality of emitted documents is value-level and not decided; number text is "
